@@ -77,7 +77,8 @@ def run(tape, prop, tier):
     if tape.chance(0.3) and maxc >= 2:
         dep_src = tape.draw(nsrc)
         dep = (dep_src, tape.draw(len(feeders[dep_src])))
-    res.sample = dict(wall_clock_steps=steps_spec, dependent_handler=dep, max_concurrent=maxc, idle_sleep=idle_sleep, handlers_per_source=nh, handler_durations=durs,
+    sniff = tape.chance(0.4)            # catch-all handlers (front-running and trailing) next to the per-source ones
+    res.sample = dict(wall_clock_steps=steps_spec, dependent_handler=dep, catch_all_handlers=sniff, max_concurrent=maxc, idle_sleep=idle_sleep, handlers_per_source=nh, handler_durations=durs,
                       idle_handlers=idle_durs, feeders=feeders, pre_jobs=pre_jobs, timer_lateness=late)
 
     tr = []
@@ -159,6 +160,16 @@ def run(tape, prop, tier):
                 hid += 1
                 handlers_of[i].append(hid)
                 d.subscribe(s, mkh(hid))
+
+        sniffed = collections.defaultdict(list)
+        if sniff:
+            def mk_sniffer(tag):
+                async def sn(ev):
+                    sniffed[tag].append(ev.eid)
+                return sn
+            d.subscribe_all(mk_sniffer("front"), front_run=True)
+            d.subscribe_all(mk_sniffer("back"))
+        out["sniffed"] = sniffed
 
         zones = [datetime.timezone.utc, datetime.timezone(datetime.timedelta(hours=-5)),
                  datetime.timezone(datetime.timedelta(hours=5, minutes=30))]
@@ -338,6 +349,14 @@ def run(tape, prop, tier):
                 V("dispatch-latency", f"an event was dispatched {S['max_lat']:.3f} s after it became due although the pool "
                                       f"({maxc} slots, {total_tasks} tasks in the whole run) never filled up; polling bound {bound:.3f} s")
             res.probes["latency_checked"] += 1
+        allowed = {e_ for i in range(nsrc) for e_ in exp[i]}
+        for tag, eids in (out.get("sniffed") or {}).items():
+            bad = [e_ for e_ in eids if e_ not in allowed]
+            twice = [e_ for e_ in set(eids) if eids.count(e_) > 1]
+            if (bad or twice) and not res.first(PROP):
+                V("per-source-order", f"{tag} catch-all handler received events {bad[:5]} that were to be dropped as out of order "
+                                      f"/ received {twice[:5]} more than once")
+            res.probes["catch_all_handlers"] += 1
         if len(reported) != drops and not res.first(PROP):
             V("drop-report", f"{len(reported)} out-of-order reports, model says {drops} events were dropped")
         for j, v in jobs.items():
